@@ -119,6 +119,11 @@ func c05TryExh(t *T, family string, tc *trieCase, textIdx int) {
 
 func c05Gen(c *Ctx) {
 	wideGen(c, -5) // very wide / very large tries, judged by the closed form of Run/C106.v
+	if cs := trieCollisionCases(); true {
+		_, note := trieCollisionHits()
+		c.Note(note)
+		c.Each(len(cs), func(i int, t *T) { c05Try(t, "code-point-taken-for-lone-byte", cs[i]) })
+	}
 	// 1. exhaustive: hand-written sets over {a,b,c} x all texts up to length L
 	L := c.N(6, 8)
 	nw := countWords(3, L)
